@@ -105,6 +105,8 @@ REQUIRE = {
     "batches_sibling_comm_shared_dx_or_N": 100,
     "batches_first_comm_after_sibling": 100,
     "batches_N_equals_dim": 20,
+    "batches_more_than_1024_markers_2d": 20,
+    "batches_more_than_1024_markers_3d": 20,
 }
 
 EPS64 = float(np.finfo(np.float64).eps)
@@ -135,6 +137,10 @@ SIBLINGS = {
     2: {"A": (1.0, 37, 7), "B": (10.0, 24, 33), "C": (1.0, 57, 300), "D": (1.3, 26, 24)},
     3: {"A": (1.0, 37, 40), "B": (2 * np.pi, 24, 3), "C": (10.0, 21, 256), "D": (0.37, 17, 100)},
 }
+# one communicator per dimension with MORE THAN 1024 markers (variant "B" shards, all kernels / precisions): a support kernel
+# that switches to another code path for large marker counts is only exercised there.  Small x extent so that C07's dense
+# matrices stay small.  Shared with C07.
+BIG_N = {2: (1.0, 32, 1536), 3: (1.0, 16, 1536)}
 # the monitors' dense NumPy algebra must not spawn a BLAS/OpenMP team per worker (16 workers share the cores)
 ONE_THREAD = {"OMP_NUM_THREADS": "1", "OPENBLAS_NUM_THREADS": "1", "MKL_NUM_THREADS": "1"}
 POSITION_CLASSES = ("uniform", "centre", "centre_ulp", "face", "face_ulp", "cluster", "mixed")
@@ -160,7 +166,7 @@ def is_dyadic(x):
 
 
 def n_class(N):
-    return "1" if N == 1 else ("small" if N < 16 else ("mid" if N < 128 else "large"))
+    return "1" if N == 1 else ("small" if N < 16 else ("mid" if N < 128 else ("large" if N <= 1024 else ">1024")))
 
 
 def make_domain(d, shape, x_range, real_t):
@@ -357,7 +363,10 @@ def run_shard(sh, rec):
     rng = util.rng_for(seed, ID, sh["name"])
     target = 6000 if tier == "quick" else 50000  # markers per (dx, N) combination
     # pool entries, then the sibling communicator, then the FIRST communicator of this process once more
-    entries = [(e, "pool") for e in POOL[d][sh["variant"]]] + [(SIBLINGS[d][sh["variant"]], "sibling"), (POOL[d][sh["variant"]][0], "first-again")]
+    entries = [(e, "pool") for e in POOL[d][sh["variant"]]]
+    if sh["variant"] == "B":
+        entries.append((BIG_N[d], "bigN"))
+    entries += [(SIBLINGS[d][sh["variant"]], "sibling"), (POOL[d][sh["variant"]][0], "first-again")]
     first = None
     for (x_range, nx, N), role in entries:
         dom0 = make_domain(d, (8,) * (d - 1) + (nx,), x_range, real_t)
@@ -379,7 +388,9 @@ def run_shard(sh, rec):
             if first is None and role == "pool":
                 first = comm
         nb = int(np.clip(target // N, 7 if tier == "quick" else 21, 120 if tier == "quick" else 600))
-        if role != "pool":
+        if role == "bigN":
+            nb = 7 if tier == "quick" else 21
+        elif role != "pool":
             nb = max(7, nb // 3)
         off = int(rng.integers(len(POSITION_CLASSES)))
         for b in range(nb):
@@ -390,7 +401,9 @@ def run_shard(sh, rec):
                 rec.count("batches_grid_y_exceeds_x")
             if d == 3 and shape[0] > shape[-1]:
                 rec.count("batches_grid_z_exceeds_x")
-            rec.count({"pool": "batches_pool_comm", "sibling": "batches_sibling_comm_shared_dx_or_N", "first-again": "batches_first_comm_after_sibling"}[role])
+            rec.count({"pool": "batches_pool_comm", "bigN": "batches_pool_comm", "sibling": "batches_sibling_comm_shared_dx_or_N", "first-again": "batches_first_comm_after_sibling"}[role])
+            if N > 1024:
+                rec.count(f"batches_more_than_1024_markers_{d}d")
             if N == d:
                 rec.count("batches_N_equals_dim")
             dom = make_domain(d, shape, x_range, real_t)
